@@ -80,7 +80,9 @@ def _graph(g, name, inputs, outputs):
 def _sub_outs(sub, node):
     from onnx import helper as h
 
-    meta = node["at"].get("ometa") or [{"dt": "f32", "rank": 1}] * len(sub["outs"])
+    # Optimizer.tla records the rank of an If's outputs in at.axis; branch outputs are FLOAT in every branch template
+    rank = node["at"]["axis"] if node["at"].get("axis", NOAX) != NOAX else 1
+    meta = node["at"].get("ometa") or [{"dt": "f32", "rank": rank}] * len(sub["outs"])
     return [h.make_tensor_value_info(o, _tp()[mt["dt"]], [None] * int(mt["rank"])) for o, mt in zip(sub["outs"], meta)]
 
 
@@ -476,13 +478,28 @@ def replay_case(arg):
     return out
 
 
+OVR_READERS = {"Reshape", "Expand", "If", "Gather", "Add", "Sub", "Mul", "Min", "Max", "Unsqueeze", "Squeeze", "CastLike", "Cast", "Concat",
+               "Shape", "Size", "Dropout", "Identity", "Transpose"}
+
+
 def case_guards(case):
     """deviation ids whose guard (a predicate over the ORIGINAL model) holds - used to attribute a failure of an entry point /
     option tuple other than the one the TLC run models"""
     g = set(case["used"])
     model = case["model"]
     names_in = {i["name"] for i in model["ins"]}
-    if any(i["kind"] == "ovr" for i in model["ins"]):
+    ovr = {i["name"] for i in model["ins"] if i["kind"] == "ovr"}
+
+    def consumers(nodes):
+        for n in nodes:
+            if any(x in ovr for x in n["ins"]):
+                yield n["op"]
+            for sg in n["sub"]:
+                yield from consumers(sg["nodes"])
+
+    # the known behaviour: a node consuming the default is replaced by a partial evaluator / rule / inference that reads (or just
+    # drops) it.  A consumer without any of these (Neg ...) can only lose the default by being folded - that is NOT known behaviour
+    if ovr and any(op in OVR_READERS for op in consumers(model["nodes"])):
         g |= {"overridable_read_as_const", "overridable_default_dropped"}
     if any(o in names_in for o in model["outs"]):
         g.add("graph_input_output_renamed")
@@ -517,6 +534,12 @@ def case_guards(case):
     return g
 
 
+def _has_const_if(case):
+    model = case["model"]
+    const = {i["name"] for i in model["inits"]} | {i["name"] for i in model["ins"] if i["kind"] == "ovr"} | {n["outs"][0] for n in model["nodes"] if n["op"] == "Constant"}
+    return any(n["op"] == "If" and n["ins"][0] in const for n in model["nodes"])
+
+
 def attribute(case, v, symptom, detail):
     """deviation id explaining a failure, or None.  symptom: raise | value | run | load | sig | check | wf"""
     g = case_guards(case)
@@ -524,6 +547,8 @@ def attribute(case, v, symptom, detail):
         if "relu_clip_no_dtype_raise" in g and "_fuse_relus_clips" in v["site"] and "NoneType" in detail:
             return "relu_clip_no_dtype_raise"
         return None
+    if symptom in ("sig", "check") and v["name"] == "optimize_ir_i1_noinf" and ("element type" in detail or "Field 'type'" in detail) and _has_const_if(case):
+        return "cse_output_type_lost"
     if symptom == "sig":
         if "graph_input_output_renamed" in g and "_orig" in detail and "input names" in detail:
             return "graph_input_output_renamed"
@@ -552,7 +577,7 @@ def attribute(case, v, symptom, detail):
 # quantifier (b): the ONNX backend test models shipped with the installed onnx package, lifted
 # ------------------------------------------------------------------------------------------------
 LIB_SETS = ["node", "pytorch-converted", "pytorch-operator", "simple"]
-LIFTS = ["plain", "const", "ovr", "if_const", "if_input", "func"]
+LIFTS = ["plain", "const", "ovr", "if_const", "if_input", "loop", "func"]
 LIB_VARIANTS = ["optimize", "optimize_ir_i1_noinf", "fold_constants", "fold_constants_ir_inf_shouldfold", "rewrite", "optimize_noinline",
                 "optimize_i3_nostop_in0", "remove_unused_nodes", "optimize_ir_shouldfold"]
 NONDET_OPS = {"RandomUniform", "RandomNormal", "RandomUniformLike", "RandomNormalLike", "Multinomial", "Bernoulli"}
@@ -632,7 +657,7 @@ def _rename_graph(g, keep, prefix):
     return nodes, r
 
 
-def lift(m, gin, ins, mode):
+def lift(m, gin, ins, mode, rec=None):
     """lifted copy of m and the feeds to use: returns (model, feeds list, recorded_applicable per feed) or raises ValueError"""
     import onnx
     from onnx import TensorProto, helper, numpy_helper
@@ -708,6 +733,47 @@ def lift(m, gin, ins, mode):
         g2 = helper.make_graph([ifn], g.name + "_if", new_inputs, list(g.output), new_inits)
         m2.graph.CopyFrom(g2)
         return m2, feeds, [True] * len(feeds)
+    if mode == "loop":
+        # Loop(trip count 1, cond true): the body computes the model from captured outer inputs and owns the initializers;
+        # the outputs are loop-carried values (initialised with zeros of the recorded outputs' type)
+        if _has_graph_attr(m):
+            raise ValueError("nested graphs are not renamed")
+        if rec is None or not all(isinstance(x, np.ndarray) and x.dtype.kind in "fiub" for x in rec):
+            raise ValueError("tensor outputs needed")
+        outer = set(names)
+        nodes, r = _rename_graph(g, outer, "b_")
+        inits = []
+        for i in g.initializer:
+            if i.name in outer:
+                continue
+            t = onnx.TensorProto()
+            t.CopyFrom(i)
+            t.name = r(i.name)
+            inits.append(t)
+        body_in = [helper.make_tensor_value_info("verif_iter", TensorProto.INT64, []), helper.make_tensor_value_info("verif_cin", TensorProto.BOOL, [])]
+        body_out = [helper.make_tensor_value_info("verif_cout", TensorProto.BOOL, [])]
+        nodes.append(helper.make_node("Identity", ["verif_cin"], ["verif_cout"]))
+        state0 = []
+        for k, (o, x) in enumerate(zip(g.output, rec)):
+            v = onnx.ValueInfoProto()
+            v.CopyFrom(o)
+            v.name = f"verif_s{k}"
+            body_in.append(v)
+            state0.append(numpy_helper.from_array(np.zeros_like(x), f"verif_init{k}"))
+            vo = onnx.ValueInfoProto()
+            vo.CopyFrom(o)
+            vo.name = r(o.name)
+            if vo.name in outer:
+                nodes.append(helper.make_node("Identity", [vo.name], ["b_id_" + vo.name]))
+                vo.name = "b_id_" + vo.name
+            body_out.append(vo)
+        body = helper.make_graph(nodes, "verif_body", body_in, body_out, inits)
+        loop = helper.make_node("Loop", ["verif_trip", "verif_cond"] + [t.name for t in state0], [o.name for o in g.output], body=body, name="verif_loop")
+        new_inits = [i for i in g.initializer if i.name in outer] + [numpy_helper.from_array(np.array(1, np.int64), "verif_trip"),
+                                                                     numpy_helper.from_array(np.array(True), "verif_cond")] + state0
+        g2 = helper.make_graph([loop], g.name + "_loop", [v for v in g.input if v.name in outer], list(g.output), new_inits)
+        m2.graph.CopyFrom(g2)
+        return m2, [plain_feed], [True]
     if mode == "func":
         dom = "verif.local"
         body = []
@@ -781,7 +847,7 @@ def replay_library(arg):
         r = {"mode": mode, "skip": None, "variants": []}
         out["runs"].append(r)
         try:
-            lm, feeds, rec_ok = lift(m, gin, ins, mode)
+            lm, feeds, rec_ok = lift(m, gin, ins, mode, rec)
             onnx.checker.check_model(lm)
             sess0 = core.ort_session(lm)
             orig = [sess0.run(None, f) for f in feeds]
